@@ -1,6 +1,7 @@
 """C05 - TT-cross reproduces low-rank tensors and caching is transparent."""
 import itertools
 import numpy as np
+from fractions import Fraction
 import teneva
 from harness.common import *
 from harness.cross_common import *
@@ -178,6 +179,40 @@ def h_info(ctx, n, rho):
                   ctx.close(info['e'], teneva.accuracy(Y, olds[-1]), 1e-9))
 
 
+def h_info_edge(ctx, which):
+    """info describes the returned tensor also (conv) when the cache test ends the
+    run in a sweep that still changed the tensor (validation data, small
+    m_cache_scale), and (nswp0 / e_vld0) when the run ends right after the
+    preparation sweep of an initial tensor whose ranks exceed what the mode
+    sizes allow (the preparation lowers them)."""
+    n = [2, 2]
+    T = ctx.tt('t', n, 1)
+    mi = multi_indices(n)
+    I_vld = np.array([mi[0], mi[3]])
+    y_vld = vec(ctx, 'v', 2)
+    ctx.assume(ctx.gt(y_vld[0], 0))
+    info = {}
+    if which == 'conv':
+        kw = {'nswp': 4, 'cache': {}, 'm_cache_scale': Fraction(1, 10) if is_sym(ctx) else 0.1}
+        Y0 = simple_Y0(n, 1)
+    elif which == 'nswp0':
+        kw = {'nswp': 0}
+        Y0 = simple_Y0(n, 3)
+    else:
+        kw = {'nswp': 3, 'e_vld': 10 ** 6}
+        Y0 = simple_Y0(n, 3)
+    with stubs_installed(ctx, 'first'):
+        Y = teneva.cross(Oracle(ctx, target=T), Y0, dr_min=0, dr_max=0, info=info, I_vld=I_vld, y_vld=y_vld, **kw)
+    ctx.claim('well_formed_same_shape', well_formed(Y, n))
+    # (e_vld0: a validation error above the huge threshold is possible for tiny validation values; then three sweeps run)
+    ctx.claim('documented_stop', info['stop'] in {'conv': ('conv',), 'nswp0': ('nswp',), 'e_vld0': ('e_vld', 'nswp')}[which])
+    d2 = sum(((ref_get(Y, tuple(i)) - y_vld[j]) ** 2 for j, i in enumerate(I_vld)), 0)
+    ctx.claim('e_vld_is_error_of_result', ctx.eq(info['e_vld'] * info['e_vld'] * sumsq(y_vld), d2))
+    ctx.claim('info_r_is_erank_of_result', ctx.eq(info['r'], teneva.erank(Y)))
+    if which != 'conv' and info['nswp'] == 0:
+        ctx.claim('no_sweep_returns_the_initial_tensor', ctx.all_eq(ref_full(Y), ref_full(Y0)))
+
+
 def h_interrupted_info(ctx, which):
     """info / cache statements of C05 on interrupted runs (set-ups shared with C06)."""
     from harness import c06
@@ -230,6 +265,8 @@ def instances(tier):
                 out.append({'func': 'h_interrupted_growing', 'params': {'n': n, 'rho': rho, 'how': how, 'after': after}, 'opts': G})
     out.append({'func': 'h_concrete_growth_real_maxvol', 'params': {}, 'opts': {'concrete_only': True}})
     out.append({'func': 'h_info', 'params': {'n': [2, 2], 'rho': 1}, 'opts': G})
+    for which in ('conv', 'nswp0', 'e_vld0'):
+        out.append({'func': 'h_info_edge', 'params': {'which': which}, 'opts': G})
     for which in ('e_vld_on_interrupt', 'cache_with_budget'):
         out.append({'func': 'h_interrupted_info', 'params': {'which': which}, 'opts': G})
     return out
